@@ -163,6 +163,9 @@ func clauseTagged(c *FuncContract, prop string) bool {
 	for _, d := range c.Dec {
 		all = append(all, d)
 	}
+	for _, rc := range c.Reach {
+		all = append(all, rc.Clause)
+	}
 	for _, cl := range all {
 		if contains(cl.Tags, prop) {
 			return true
